@@ -494,6 +494,31 @@ def kb_audit():
     probe("np.mean of integers accumulates in float64", np.array([2 ** 62, 2 ** 62, 2 ** 62]).mean() > 0)
     probe("np.sum of uint64 stays uint64", np.array([1], dtype=np.uint64).sum().dtype == np.uint64)
     probe("np.sum of a boolean matrix along axis 0 counts", np.array([[True], [True]]).sum(axis=0).tolist() == [2])
+    # facts behind the hazards added in rounds 8 / 9 (H37-H55)
+    import numbers
+    probe("np.bool_ is not a numbers.Number (np.int8, np.float32 are)", not isinstance(np.bool_(True), numbers.Number) and isinstance(np.int8(1), numbers.Number) and isinstance(np.float32(1), numbers.Number))
+    probe("np.bool_ is an np.generic", isinstance(np.bool_(True), np.generic))
+    probe("np.append(uint64 array, 0) is float64", np.append(np.zeros(2, np.uint64), 0).dtype == np.float64)
+    probe("np.insert keeps the array's dtype", np.insert(np.zeros(2, np.uint64), 0, 0).dtype == np.uint64)
+    probe("np.full_like takes the template's dtype", np.full_like(np.arange(2), 2.5).tolist() == [2, 2])
+    probe(".item() of a typed scalar is weak", (np.zeros(1, np.int8) + np.int16(3).item()).dtype == np.int8 and (np.zeros(1, np.int8) + np.int16(3)).dtype == np.int16)
+    probe("x[-0:] is the whole array", np.arange(3)[-0:].size == 3)
+    probe("diff of unsigned wraps (never negative)", bool(np.all(np.diff(np.array([3, 1], dtype=np.uint8)) >= 0)))
+    probe("sum of differences is not exact in floating point", float(np.cumsum(np.concatenate(([1e16], np.diff(np.array([1e16, 1.0])))))[-1]) != 1.0)
+    probe("bit patterns of 0.0 and -0.0 differ", np.array([0.0]).view(np.uint64)[0] != np.array([-0.0]).view(np.uint64)[0] and 0.0 == -0.0)
+    probe("bitwise_xor.accumulate keeps the operand dtype", np.bitwise_xor.accumulate(np.zeros(2, np.uint8)).dtype == np.uint8)
+    probe("add.accumulate of int8 stays int8 only with out=/dtype=; cumsum widens", np.cumsum(np.zeros(2, np.int8)).dtype == np.int64)
+    probe("searchsorted in unsorted data is not a lookup", int(np.searchsorted(np.array([3, 1, 2]), 1)) != 1)
+    try:
+        np.zeros(0).max()
+        probe("max of an empty array raises", False)
+    except ValueError:
+        probe("max of an empty array raises", True)
+    probe("zeros_like(x, shape=...) keeps x's dtype", np.zeros_like(np.arange(2), shape=(3,)).dtype == np.int64)
+    probe("int64 == uint64 is compared exactly although their result_type is float64",
+          (not bool((np.array([2 ** 62], np.uint64) == np.array([2 ** 62 + 1], np.int64))[0])) and np.result_type(np.uint64, np.int64) == np.float64
+          and bool((np.array([2 ** 62], np.uint64).astype(np.float64) == np.array([2 ** 62 + 1], np.int64).astype(np.float64))[0]))
+    probe("concatenate promotes int and float blocks", np.concatenate([np.arange(2), np.array([0.5])]).dtype == np.float64)
     return out
 
 
